@@ -94,6 +94,10 @@ func c15Jobs() []c15Job {
   "a_math":{"custom_func":{"name":"javascript","args":[{"const":"(function(){ var r = Math.zz === undefined ? 'clean' : 'kept:' + Math.zz; Math.zz = n; return r })()"},{"const":"n"},{"xpath":"n","type":"int"}]}},
   "b_proto":{"custom_func":{"name":"javascript","args":[{"const":"(function(){ var r = typeof [].zzlast; Array.prototype.zzlast = function() { return 1 }; return r })()"}]}}}}}}`,
 			Input: `[{"n":1},{"n":2},{"n":3}]`},
+		// a script whose calls nest as deep as the data says (300, 600, 900, 3000 levels)
+		c15Job{Name: "js-deep-recursion", Schema: `{` + h("json") + `,"transform_declarations":{"FINAL_OUTPUT":{"xpath":"/*","object":{
+  "d":{"custom_func":{"name":"javascript","args":[{"const":"(function f(k) { return k == 0 ? 0 : 1 + f(k - 1) })(n)"},{"const":"n"},{"xpath":"n","type":"int"}]}}}}}}`,
+			Input: `[{"n":300},{"n":600},{"n":900},{"n":3000},{"n":5}]`},
 		// an array element whose xpath is a union: the elements come in the order the xpath engine gives them
 		// (all of the left branch, then the right one) for every record, whatever the nodes' history in the pool
 		c15Job{Name: "xml-union-in-array", Schema: `{` + h("xml") + `,"transform_declarations":{"FINAL_OUTPUT":{"xpath":"/r/o","object":{
